@@ -86,16 +86,17 @@ def witness_search(ctx, o):
     """For a failed modular (stub-based) or Verus obligation: look for a concrete failing input by
     running the paired bounded-exec obligation. Returns a short description or None."""
     import registry
-    w = o.witness
-    if not w:
+    ws = o.witness
+    if not ws:
         return None
-    xo = registry.OBL.get(w if w in registry.OBL else "")
-    if xo is None or xo.engine != "exec":
-        return None
-    try:
-        r = run(ctx, [xo])[xo.id]
-    except Undecided:
-        return None
-    if r.get("status") == "failed":
-        return {"via": xo.id, "what": r.get("all_failures") or r.get("reason")}
+    for w in ([ws] if isinstance(ws, str) else list(ws)):
+        xo = registry.OBL.get(w if w in registry.OBL else "")
+        if xo is None or xo.engine != "exec":
+            continue
+        try:
+            r = run(ctx, [xo])[xo.id]
+        except Undecided:
+            continue
+        if r.get("status") == "failed":
+            return {"via": xo.id, "what": r.get("all_failures") or r.get("reason")}
     return None
